@@ -322,7 +322,7 @@ def run(ctx: Ctx):
     for s in range(nsc):
         spec = rich.random_spec(rng)
         if s == 0:
-            spec.update(sub_ns=True, bad_dur=True, short=True, overlap_depth=5)
+            spec.update(sub_ns=True, bad_dur=True, short=True, overlap_depth=5, origin=True)
         if s == 1:
             spec.update(layout="subdirs", dma_only=True, R=max(2, spec["R"]))
         if s == 2:
